@@ -4,6 +4,7 @@ Monitors: (1) strace execve event log of xargs and its children: any `execve(...
 (2) xargs exit status (126 / "Argument list too long"); (3) compact recorder log: every argument delivered exactly
 once, in order (running CRC chain); (4) for an over-long single argument: exit 1, diagnostic, never handed to exec."""
 import os
+import sys
 import re
 import resource
 import subprocess
@@ -24,6 +25,8 @@ def gen_args(rng, count, dist):
     if dist == "utf8-200":
         # 100 two-byte characters per argument: byte cost is twice the character count
         return [("%04d" % (i % 10000) + "é" * 98).encode() for i in range(count)]
+    if dist == "999":
+        return [b"%06d" % i + b"q" * 993 for i in range(count)]
     if dist == "7":
         return [b"%06d" % (i % 1000000) for i in range(count)]
     if dist == "10":
@@ -46,16 +49,17 @@ def gen_args(rng, count, dist):
     raise ValueError(dist)
 
 
-def point(name, count, dist, env_kb, stack, opts=(), big=None, mode="-0", env_tiny=0, cmd_path_len=0, words_per_line=None):
+def point(name, count, dist, env_kb, stack, opts=(), big=None, mode="-0", env_tiny=0, cmd_path_len=0, words_per_line=None, dup_env=None):
     """env_kb: environment padding made of few large variables; env_tiny: number of additional tiny variables (each costs the
     kernel a pointer as well as its bytes)."""
     return {"name": name, "count": count, "dist": dist, "env_kb": env_kb, "stack": stack, "opts": list(opts), "big": big, "mode": mode,
-            "env_tiny": env_tiny, "cmd_path_len": cmd_path_len, "words_per_line": words_per_line}
+            "env_tiny": env_tiny, "cmd_path_len": cmd_path_len, "words_per_line": words_per_line, "dup_env": dup_env}
 
 
 def grid(ctx, rng):
     q = [
         point("400k x 1 byte, 8MiB stack", 400000, "1", 1, 8 * MIB),
+        point("3500 x 999 bytes, environment with DUPVAR=<1000 bytes> 40 times", 3500, "999", 1, 8 * MIB, dup_env=(40, 1000)),
         point("300k x 2 bytes, 5000 words per line, -L 50", 300000, "2", 1, 8 * MIB, opts=["-L", "50"], mode="words", words_per_line=5000),
         point("one line of 400k one-byte words, -L 1", 400000, "1", 1, 8 * MIB, opts=["-L", "1"], mode="words", words_per_line=400000),
         point("100k x 10 bytes, 100 words per line, --max-lines=3, 512KiB stack", 100000, "10", 1, 512 * KIB, opts=["--max-lines=3"], mode="words",
@@ -196,8 +200,21 @@ def run_point(job):
             cmd = os.path.join(d, "rec")
             os.symlink(common.REC, cmd)
             st.inc("points_with_long_command_path")
-        argv = ["strace", "-f", "-qq", "-o", slog, "-e", "trace=execve", "-s", "16",
-                common.XARGS] + (["-0"] if p["mode"] == "-0" else []) + p["opts"] + [cmd]
+        xargv = [common.XARGS] + (["-0"] if p["mode"] == "-0" else []) + p["opts"] + [cmd]
+        if p.get("dup_env"):
+            # an environment block as only a raw execve can hand it over: the same name many times (a dict or a shell would have
+            # collapsed them). What xargs measures and what its children receive must still agree.
+            ndup, dsize = p["dup_env"]
+            launcher = ("import ctypes, os, sys\n"
+                        "envp = [k + b'=' + v for k, v in os.environb.items()] + [b'DUPVAR=' + b'd' * %d] * %d\n"
+                        "argv = [a.encode() for a in sys.argv[1:]]\n"
+                        "A = (ctypes.c_char_p * (len(argv) + 1))(*argv, None)\n"
+                        "E = (ctypes.c_char_p * (len(envp) + 1))(*envp, None)\n"
+                        "ctypes.CDLL(None, use_errno=True).execve(argv[0], A, E)\n"
+                        "sys.exit(97)\n" % (dsize, ndup))
+            xargv = [sys.executable, "-c", launcher] + xargv
+            st.inc("points_with_repeated_environment_names")
+        argv = ["strace", "-f", "-qq", "-o", slog, "-e", "trace=execve", "-s", "16"] + xargv
         rc, out, err, to = common.run_cmd(argv, input=data, env=env, cwd=wd, timeout=900, preexec_fn=pre)
         st.inc("evaluations")
         st.add("distinct", p["name"])
